@@ -18,12 +18,18 @@
   pairs are now full theorems with `C19_regress_*` witnesses of the once-failing inputs):
     * fix 86c5631 : AveragePooling2D output positions, grouped Conv2D/Conv1D, depth_multiplier
     * fix 2562e1d : pe() on (Global)AveragePooling2D reads `pool_sum_accumulator`
+    * fix 90baf03 : estimate.py grouped QConv2D/QConv1D (was over-counted by `groups`)
+    * fix 0e51e85 : estimate.py QDepthwiseConv2D depth_multiplier
+    * fix a151cef : get_operation_count knows QAveragePooling2D (reported 0)
+    * fix fff3a88 : Dense(1) on (C, 1) — both files read the feature axis, not `np.max`
   Where the code still violates the property the provable relation is kept as `_partial` and the
-  violation is a `_counterexample` (each one reproduced on the real code by the harness):
-    * Dense(1) on (C, 1)    : `np.max` picks the wrong axis
-    * classes get_operation_count does not know report 0 (QAveragePooling2D, QSeparableConv*)
-    * estimate.py (unchanged): grouped QConv2D/QConv1D over-counted by `groups`,
-      QDepthwiseConv2D lacks depth_multiplier, QSeparableConv1D/2D 1×1 stage lacks input channels
+  violation is a `_counterexample` (reproduced on the real code by the harness) — both concern the
+  separable convolutions:
+    * QSeparableConv1D/2D are in no branch of get_operation_count and report 0 — qtools does not
+      support these layers at all (generate_layer_data_type_map: "QTools cannot parse …")
+    * estimate.py counts their 1×1 stage as positions × filters, without the input channels; the
+      repository's own test (tests/qconvolutional_test.py::test_qconv1d[QSeparableConv1D], == 30)
+      pins that number, so the repair needs the maintainers' decision
 -/
 import QKV.Lemmas.OpCount
 import QKV.Lemmas.Energy
@@ -124,6 +130,16 @@ theorem C19_count_avg_pool (name : String) (hn : classify name = .avgPool) (p : 
 
 example : classify "AveragePooling2D" = .avgPool := by decide
 example : classify "AvgPool2D" = .avgPool := by decide
+example : classify "QAveragePooling2D" = .avgPool := by decide
+
+/-- regression witness of fix a151cef: QAveragePooling2D(2) on 8×8×3 performs 192 accumulates
+    (the class was in no branch and reported 0). -/
+theorem C19_regress_qavg_pool :
+    opCount "QAveragePooling2D" (avgPoolInfo .valid 8 8 2 2 2 2 3) = some 192 ∧
+    macAvgPool .valid 8 8 2 2 2 2 3 = 192 := by
+  constructor
+  · decide
+  · simp only [macAvgPool, poolNest_length]; decide
 
 /-- regression witness of fix 86c5631: AveragePooling2D(2) on 8×8×4 performs 256 accumulates
     (the unrepaired code reported 16). -/
@@ -134,16 +150,45 @@ theorem C19_regress_avg_pool :
   · decide
   · simp only [macAvgPool, poolNest_length]; decide
 
-/-- Dense / QDense on `(batch, n_in)` or `(batch, 1, …, 1, n_in)` (squeeze-and-excite use). -/
-theorem C19_count_dense (name : String) (hn : classify name = .dense) (lead nIn units : ℕ)
-    (hi : 1 ≤ nIn) (hu : 1 ≤ units) :
-    opCount name (denseInfo lead nIn units) = some (macDense nIn units) := by
-  simp only [opCount, hn, opCountB, denseInfo, macDense, denseNest_length,
-    atMostOneBig_ones_append, maxL_ones_append _ _ hi, maxL_ones_append _ _ hu]
-  simp [Nat.mul_comm]
+/-- Dense / QDense on `(batch, d_1, …, d_k, n_in)`, ANY leading axes: whenever the shapes pass
+    the two assertions of the code (at most one dimension > 1 in the input and in the output
+    shape), the count is the loop nest {(position of the leading axes, output unit, input
+    feature)}. -/
+theorem C19_count_dense (name : String) (hn : classify name = .dense) (lead : List ℕ)
+    (nIn units : ℕ) (hi : atMostOneBig (lead ++ [nIn]) = true)
+    (ho : atMostOneBig (lead ++ [units]) = true) :
+    opCount name (denseInfo lead nIn units) = some (macDenseAt lead nIn units) := by
+  simp only [opCount, hn, opCountB, denseInfo, hi, ho, denseCount_append, macDenseAt,
+    denseNestAt_length, Bool.and_self, if_true]
+  congr 1; ring
+
+/-- … and a shape with two dimensions > 1 is refused (the `assert` of the code), never
+    mis-counted. -/
+theorem C19_count_dense_rejects (name : String) (hn : classify name = .dense) (L : LayerInfo)
+    (h : atMostOneBig L.inShape = false ∨ atMostOneBig L.outShape = false) :
+    opCount name L = none := by
+  rcases h with h | h <;> simp [opCount, hn, opCountB, h]
+
+/-- the documented uses: `(batch, n_in)` and the squeeze-and-excite `(batch, 1, …, 1, n_in)` pass
+    the assertions for every size and give the plain `units × n_in` nest. -/
+theorem C19_count_dense_vector (name : String) (hn : classify name = .dense) (k nIn units : ℕ) :
+    opCount name (denseInfo (List.replicate k 1) nIn units) = some (macDense nIn units) := by
+  rw [C19_count_dense name hn _ _ _ (atMostOneBig_ones_append k nIn)
+    (atMostOneBig_ones_append k units)]
+  simp [macDenseAt, macDense, denseNestAt_length, denseNest_length, prodL_replicate_one]
 
 example : classify "QDense" = .dense := by decide
 example : classify "Dense" = .dense := by decide
+example : atMostOneBig ([5] ++ [1]) = true ∧ atMostOneBig ([1, 1] ++ [7]) = true := by decide
+
+/-- regression witness of fix fff3a88: Dense(1) applied to a `(batch, 5, 1)` tensor performs 5
+    multiplications (one per row of the leading axis, feature axis of size 1); the unrepaired code
+    took `np.max` = 5 for both sizes and reported 25. -/
+theorem C19_regress_dense_leading_axis :
+    opCount "QDense" (denseInfo [5] 1 1) = some 5 ∧ macDenseAt [5] 1 1 = 5 ∧
+    maxL [5, 1] * maxL [5, 1] = 25 := by
+  refine ⟨by decide, ?_, by decide⟩
+  simp only [macDenseAt, denseNestAt_length]; decide
 
 /-- GlobalAveragePooling2D / QGlobalAveragePooling2D: one accumulate per input element. -/
 theorem C19_count_global_avg_pool (name : String) (hn : classify name = .avgPool) (h w c : ℕ) :
@@ -165,93 +210,81 @@ theorem C19_count_merge (name : String) (hn : isMergeName name = true) (shape : 
 example : isMergeName "Add" = true := by decide
 example : isMergeName "Multiply" = true := by decide
 
-/-- estimate.py agrees with the loop nest for QConv2D (groups = 1). -/
-theorem C19_est_conv2d (p : Padding) (h w kh kw sh sw dh dw ci co : ℕ)
-    (hsh : 1 ≤ sh) (hsw : 1 ≤ sw) (hkh : 1 ≤ kh) (hkw : 1 ≤ kw) (hdh : 1 ≤ dh) (hdw : 1 ≤ dw) :
-    estOps .qconv2d (conv2dInfo p h w kh kw sh sw dh dw ci co 1)
-      = some (macConv2d p h w kh kw sh sw dh dw ci co) := by
-  simp only [estOps, conv2dInfo, macConv2d, conv2dNest_length,
-    positions_length _ _ _ _ _ hsh hkh hdh, positions_length _ _ _ _ _ hsw hkw hdw, Nat.div_one]
+/-! ## estimate.py `number_of_operations` (fixes 90baf03, 0e51e85, fff3a88) -/
 
-theorem C19_est_conv1d (p : Padding) (n k s d ci co : ℕ) (hs : 1 ≤ s) (hk : 1 ≤ k) (hd : 1 ≤ d) :
-    estOps .qconv1d (conv1dInfo p n k s d ci co 1) = some (macConv1d p n k s d ci co) := by
-  simp only [estOps, conv1dInfo, macConv1d, conv1dNest_length,
-    positions_length _ _ _ _ _ hs hk hd, Nat.div_one]
-
-theorem C19_est_depthwise (p : Padding) (h w kh kw sh sw dh dw ci : ℕ)
-    (hsh : 1 ≤ sh) (hsw : 1 ≤ sw) (hkh : 1 ≤ kh) (hkw : 1 ≤ kw) (hdh : 1 ≤ dh) (hdw : 1 ≤ dw) :
-    estOps .qdepthwise (depthwiseInfo p h w kh kw sh sw dh dw ci 1)
-      = some (macDepthwise p h w kh kw sh sw dh dw ci 1) := by
-  simp only [estOps, depthwiseInfo, macDepthwise, depthwiseNest_length,
-    positions_length _ _ _ _ _ hsh hkh hdh, positions_length _ _ _ _ _ hsw hkw hdw]
-  congr 1; ring
-
-/-- estimate.py QDense on `(batch, n_in)`; its assertion needs both sizes > 1. -/
-theorem C19_est_dense (nIn units : ℕ) (hi : 2 ≤ nIn) (hu : 2 ≤ units) :
-    estOps .qdense (denseInfo 0 nIn units) = some (macDense nIn units) := by
-  have h1 : 1 < nIn := hi
-  have h2 : 1 < units := hu
-  simp [estOps, denseInfo, macDense, denseNest_length, maxL, h1, h2, Nat.mul_comm]
-
-/-! ## where the count is NOT the loop-nest cardinality (defects that remain in the code) -/
-
-/-- Dense(1) applied to a `(batch, 5, 1)` tensor performs 5 multiplications (one per row of the
-    leading axis, feature axis of size 1); `np.max` takes 5 for both sizes: 25. -/
-theorem C19_count_dense_counterexample :
-    opCount "QDense" { inShape := [5, 1], outShape := [5, 1], wShape := [1, 1], poolSize := none }
-      = some 25 ∧ 5 * macDense 1 1 = 5 := by
-  constructor <;> decide
-
-/-- estimate.py (not repaired): grouped QConv2D is over-counted by exactly `groups`. -/
-theorem C19_est_grouped_conv2d_partial (p : Padding) (h w kh kw sh sw dh dw ci co g : ℕ)
-    (hg : g ∣ ci)
+/-- estimate.py QConv2D, ANY number of groups. -/
+theorem C19_est_conv2d (p : Padding) (h w kh kw sh sw dh dw ci co g : ℕ)
     (hsh : 1 ≤ sh) (hsw : 1 ≤ sw) (hkh : 1 ≤ kh) (hkw : 1 ≤ kw) (hdh : 1 ≤ dh) (hdw : 1 ≤ dw) :
     estOps .qconv2d (conv2dInfo p h w kh kw sh sw dh dw ci co g)
-      = some (g * macConv2d p h w kh kw sh sw dh dw (ci / g) co) := by
-  obtain ⟨q, rfl⟩ := hg
+      = some (macConv2d p h w kh kw sh sw dh dw (ci / g) co) := by
   simp only [estOps, conv2dInfo, macConv2d, conv2dNest_length,
     positions_length _ _ _ _ _ hsh hkh hdh, positions_length _ _ _ _ _ hsw hkw hdw]
-  rcases Nat.eq_zero_or_pos g with rfl | hgp
-  · simp
-  · rw [Nat.mul_div_cancel_left q hgp]; congr 1; ring
 
-/-- QConv2D(6, 3, groups=2) on 8×8×4: estimate.py reports 7776, performed 3888. -/
-theorem C19_est_grouped_conv2d_counterexample :
-    estOps .qconv2d (conv2dInfo .valid 8 8 3 3 1 1 1 1 4 6 2) = some 7776 ∧
+/-- regression witness of fix 90baf03: QConv2D(6, 3, groups=2) on 8×8×4 — estimate.py reported
+    7776 = 2 · 3888. -/
+theorem C19_regress_est_grouped_conv2d :
+    estOps .qconv2d (conv2dInfo .valid 8 8 3 3 1 1 1 1 4 6 2) = some 3888 ∧
     macConv2d .valid 8 8 3 3 1 1 1 1 (4 / 2) 6 = 3888 := by
   constructor
   · decide
   · simp only [macConv2d, conv2dNest_length]; decide
 
-theorem C19_est_grouped_conv1d_partial (p : Padding) (n k s d ci co g : ℕ) (hg : g ∣ ci)
-    (hs : 1 ≤ s) (hk : 1 ≤ k) (hd : 1 ≤ d) :
-    estOps .qconv1d (conv1dInfo p n k s d ci co g) = some (g * macConv1d p n k s d (ci / g) co) := by
-  obtain ⟨q, rfl⟩ := hg
-  simp only [estOps, conv1dInfo, macConv1d, conv1dNest_length, positions_length _ _ _ _ _ hs hk hd]
-  rcases Nat.eq_zero_or_pos g with rfl | hgp
-  · simp
-  · rw [Nat.mul_div_cancel_left q hgp]; congr 1; ring
+/-- estimate.py QConv1D, any number of groups. -/
+theorem C19_est_conv1d (p : Padding) (n k s d ci co g : ℕ) (hs : 1 ≤ s) (hk : 1 ≤ k) (hd : 1 ≤ d) :
+    estOps .qconv1d (conv1dInfo p n k s d ci co g) = some (macConv1d p n k s d (ci / g) co) := by
+  simp only [estOps, conv1dInfo, macConv1d, conv1dNest_length,
+    positions_length _ _ _ _ _ hs hk hd]
 
-/-- estimate.py (not repaired): QDepthwiseConv2D lacks the factor depth_multiplier. -/
-theorem C19_est_depthwise_multiplier_partial (p : Padding) (h w kh kw sh sw dh dw ci dm : ℕ)
+theorem C19_regress_est_grouped_conv1d :
+    estOps .qconv1d (conv1dInfo .valid 6 2 1 1 2 6 2) = some 60 ∧
+    macConv1d .valid 6 2 1 1 (2 / 2) 6 = 60 := by
+  constructor
+  · decide
+  · simp only [macConv1d, conv1dNest_length]; decide
+
+/-- estimate.py QDepthwiseConv2D with ANY depth multiplier. -/
+theorem C19_est_depthwise (p : Padding) (h w kh kw sh sw dh dw ci dm : ℕ)
     (hsh : 1 ≤ sh) (hsw : 1 ≤ sw) (hkh : 1 ≤ kh) (hkw : 1 ≤ kw) (hdh : 1 ≤ dh) (hdw : 1 ≤ dw) :
-    ∃ n, estOps .qdepthwise (depthwiseInfo p h w kh kw sh sw dh dw ci dm) = some n ∧
-      macDepthwise p h w kh kw sh sw dh dw ci dm = dm * n := by
-  refine ⟨kh * kw * convOutLen p h kh sh dh * convOutLen p w kw sw dw * ci,
-    by simp only [estOps, depthwiseInfo], ?_⟩
-  simp only [macDepthwise, depthwiseNest_length,
+    estOps .qdepthwise (depthwiseInfo p h w kh kw sh sw dh dw ci dm)
+      = some (macDepthwise p h w kh kw sh sw dh dw ci dm) := by
+  simp only [estOps, depthwiseInfo, macDepthwise, depthwiseNest_length,
     positions_length _ _ _ _ _ hsh hkh hdh, positions_length _ _ _ _ _ hsw hkw hdw]
-  ring
+  congr 1; ring
 
-/-- QDepthwiseConv2D(3, depth_multiplier=2) on 8×8×3: estimate.py reports 972, performed 1944. -/
-theorem C19_est_depthwise_multiplier_counterexample :
-    estOps .qdepthwise (depthwiseInfo .valid 8 8 3 3 1 1 1 1 3 2) = some 972 ∧
+/-- regression witness of fix 0e51e85: QDepthwiseConv2D(3, depth_multiplier=2) on 8×8×3 —
+    estimate.py reported 972. -/
+theorem C19_regress_est_depthwise_multiplier :
+    estOps .qdepthwise (depthwiseInfo .valid 8 8 3 3 1 1 1 1 3 2) = some 1944 ∧
     macDepthwise .valid 8 8 3 3 1 1 1 1 3 2 = 1944 := by
   constructor
   · decide
   · simp only [macDepthwise, depthwiseNest_length]; decide
 
-/-- estimate.py QSeparableConv2D: depthwise stage right, 1×1 stage lacks the factor `ci`. -/
+/-- estimate.py QDense on `(batch, d_1, …, d_k, n_in)`; its assertions want EXACTLY one dimension
+    > 1 in each shape. -/
+theorem C19_est_dense (lead : List ℕ) (nIn units : ℕ)
+    (hi : exactlyOneBig (lead ++ [nIn]) = true) (ho : exactlyOneBig (lead ++ [units]) = true) :
+    estOps .qdense (denseInfo lead nIn units) = some (macDenseAt lead nIn units) := by
+  simp only [estOps, denseInfo, hi, ho, denseCount_append, macDenseAt, denseNestAt_length,
+    Bool.and_self, if_true]
+  congr 1; ring
+
+/-- the ordinary `(batch, n_in)` / `(batch, 1, …, 1, n_in)` use, both sizes > 1 -/
+theorem C19_est_dense_vector (k nIn units : ℕ) (hi : 2 ≤ nIn) (hu : 2 ≤ units) :
+    estOps .qdense (denseInfo (List.replicate k 1) nIn units) = some (macDense nIn units) := by
+  rw [C19_est_dense _ _ _ (exactlyOneBig_ones_append k nIn hi) (exactlyOneBig_ones_append k units hu)]
+  simp [macDenseAt, macDense, denseNestAt_length, denseNest_length, prodL_replicate_one]
+
+/-- regression witness of fix fff3a88 in estimate.py: QDense(1) on `(5, 1)` reported 25. -/
+theorem C19_regress_est_dense_leading_axis :
+    estOps .qdense (denseInfo [5] 1 1) = some 5 ∧ macDenseAt [5] 1 1 = 5 := by
+  refine ⟨by decide, ?_⟩
+  simp only [macDenseAt, denseNestAt_length]; decide
+
+/-! ## where the count is NOT the loop-nest cardinality (defects that remain in the code) -/
+
+/-- estimate.py QSeparableConv2D (not repaired): depthwise stage right, 1×1 stage lacks the
+    factor `ci`. -/
 theorem C19_est_sepconv2d_partial (p : Padding) (h w kh kw sh sw dh dw ci co : ℕ)
     (hsh : 1 ≤ sh) (hsw : 1 ≤ sw) (hkh : 1 ≤ kh) (hkw : 1 ≤ kw) (hdh : 1 ≤ dh) (hdw : 1 ≤ dw) :
     let P := convOutLen p h kh sh dh * convOutLen p w kw sw dw
@@ -272,22 +305,47 @@ theorem C19_est_sepconv2d_counterexample :
   · decide
   · simp only [macSepConv2d, macDepthwise, depthwiseNest_length, conv2dNest_length]; decide
 
-/-- QSeparableConv1D(5, 3) on 8×3: estimate.py reports 84, performed 144. -/
+/-- estimate.py QSeparableConv1D (not repaired), same relation. -/
+theorem C19_est_sepconv1d_partial (p : Padding) (n k s d ci co : ℕ)
+    (hs : 1 ≤ s) (hk : 1 ≤ k) (hd : 1 ≤ d) :
+    let P := convOutLen p n k s d
+    estOps .qsepconv1d (sepConv1dInfo p n k s d ci 1 co) = some (k * P * ci + P * co) ∧
+      macSepConv1d p n k s d ci 1 co = k * P * ci + P * co * ci := by
+  constructor
+  · simp only [estOps, sepConv1dInfo]
+  · simp only [macSepConv1d, depthwiseNest_length, conv1dNest_length,
+      positions_length _ _ _ _ _ hs hk hd]
+    simp; ring
+
+/-- QSeparableConv1D(5, 3) on 8×3: estimate.py reports 84, performed 144; the repository's own
+    test case QSeparableConv1D(2, 2) on 4×4 expects the reported 30 where 48 are performed. -/
 theorem C19_est_sepconv1d_counterexample :
     estOps .qsepconv1d (sepConv1dInfo .valid 8 3 1 1 3 1 5) = some 84 ∧
+    macSepConv1d .valid 8 3 1 1 3 1 5 = 144 ∧
+    estOps .qsepconv1d (sepConv1dInfo .valid 4 2 1 1 4 1 2) = some 30 ∧
+    macSepConv1d .valid 4 2 1 1 4 1 2 = 48 := by
+  refine ⟨by decide, ?_, by decide, ?_⟩ <;>
+    (simp only [macSepConv1d, depthwiseNest_length, conv1dNest_length]; decide)
+
+/-- every class `get_operation_count` has no branch for reports 0 ("defaulted to 0") … -/
+theorem C19_count_unknown_class_partial (name : String) (hn : classify name = .other)
+    (L : LayerInfo) : opCount name L = some 0 := by
+  simp [opCount, hn, opCountB]
+
+/-- … although QSeparableConv2D / QSeparableConv1D compute: QSeparableConv2D(5, 3) on 8×8×3
+    performs 1512 MACs.  (qtools does not support these layers: generate_layer_data_type_map
+    passes their input type through with a "cannot parse" warning.) -/
+theorem C19_count_unknown_class_counterexample :
+    opCount "QSeparableConv2D" (sepConv2dInfo .valid 8 8 3 3 1 1 1 1 3 1 5) = some 0 ∧
+    macSepConv2d .valid 8 8 3 3 1 1 1 1 3 1 5 = 1512 ∧
+    opCount "QSeparableConv1D" (sepConv1dInfo .valid 8 3 1 1 3 1 5) = some 0 ∧
     macSepConv1d .valid 8 3 1 1 3 1 5 = 144 := by
-  constructor
-  · decide
+  refine ⟨by decide, ?_, by decide, ?_⟩
+  · simp only [macSepConv2d, macDepthwise, depthwiseNest_length, conv2dNest_length]; decide
   · simp only [macSepConv1d, depthwiseNest_length, conv1dNest_length]; decide
 
-/-- classes `get_operation_count` does not know report 0 although they compute
-    (QAveragePooling2D, QSeparableConv2D, …). -/
-theorem C19_count_unknown_class_counterexample :
-    opCount "QAveragePooling2D" (avgPoolInfo .valid 8 8 2 2 2 2 3) = some 0 ∧
-    macAvgPool .valid 8 8 2 2 2 2 3 = 192 := by
-  constructor
-  · decide
-  · simp only [macAvgPool, poolNest_length]; decide
+example : classify "QSeparableConv2D" = .other := by decide
+example : classify "QSeparableConv1D" = .other := by decide
 
 /-! ## energy report -/
 
